@@ -155,6 +155,86 @@ def run(res, tier, seed):
     mod = runner.run_model(cmds)
     for c, a, b in zip(cmds, obs, mod):
         res.compare(c, a, b, 'cmd_arr_children')
+    run_constructors(res, rng, n, limit)
+
+
+def one_level_header(rng, g):
+    """a header for a one-level collection and its number of children"""
+    k = rng.choice(['tuple', 'list', 'dict', 'odict', 'ddict', 'deque', 'named', 'struct', 'custom', 'custom', 'none', 'unreg'])
+    n = rng.randrange(0, 4)
+    if k == 'tuple':
+        return (1,), n
+    if k == 'list':
+        return (2,), n
+    if k in ('dict', 'odict', 'ddict'):
+        ks = gen.gen_keys(rng, n, rng.choice(['str', 'int', 'stage2', 'unsortable', 'num']))
+        n = len(ks)
+        return ((3, *ks) if k == 'dict' else (4, *ks) if k == 'odict' else (5, rng.randrange(0, 5), *ks)), n
+    if k == 'deque':
+        return ((6,) if rng.random() < 0.5 else (6, n + rng.randrange(0, 3))), n
+    if k == 'named':
+        return (7, rng.randrange(0, 4)), n
+    if k == 'struct':
+        i = rng.randrange(len(world.STRUCTSEQ_ARITY))
+        return (8, i), world.STRUCTSEQ_ARITY[i]
+    if k == 'none':
+        return (0,), 0
+    if k == 'unreg':
+        return (9, 5, 0, (0,)), n
+    cls = rng.randrange(0, 5)
+    r = rng.random()
+    if r < 0.5:
+        eb = (rng.choice([0, 1]),)
+    elif r < 0.8:
+        eb = (2, *gen.gen_keys(rng, n if rng.random() < 0.8 else n + 1, 'str'))
+    elif r < 0.9:
+        eb = (3, rng.choice([0, 1, 4]))
+    else:
+        eb = (4, rng.randrange(1, 50))
+    return (9, cls, rng.randrange(0, 5), eb), n
+
+
+def run_constructors(res, rng, n, limit):
+    """cmd 22: treespec_from_collection on one-level collections of treespecs"""
+    cmds, obs = [], []
+    for i in range(n):
+        cfg = list(gen.gen_cfg(rng, limit))
+        cfg[2] = 0
+        cfg = tuple(cfg)
+        g = gen.TreeGen(rng, world.STRUCTSEQ_ARITY, max_nodes=rng.choice([3, 8]), max_depth=3, max_arity=3)
+        h, nch = one_level_header(rng, g)
+        kids = []
+        for j in range(nch):
+            r = rng.random()
+            nil_j = cfg[0] if r < 0.85 else 1 - cfg[0]
+            ns_j = cfg[1] if rng.random() < 0.7 else rng.choice([0, 1, 2])
+            kids.append((nil_j, ns_j, g.tree()))
+        hobj = (1, h, *[(0, 1000 + j) for j in range(nch)])
+        case = (22, cfg, hobj, tuple(kids))
+        with World(cfg) as w:
+            specs, ok = {}, True
+            for j, (nil_j, ns_j, t) in enumerate(kids):
+                tr = realize(t, random.Random(i * 31 + j), {})
+                f = attempt(lambda: optree.tree_structure(tr, none_is_leaf=bool(nil_j), namespace=world.NS_NAMES[ns_j]))
+                if f[0] != 0:
+                    ok = False
+                    break
+                specs[1000 + j] = f[1]
+            if not ok:
+                o = (5,)
+            else:
+                coll = realize(hobj, random.Random(i), specs)
+                r = attempt(lambda: optree.treespec_from_collection(coll, none_is_leaf=bool(cfg[0]),
+                                                                    namespace=world.NS_NAMES[cfg[1]]))
+                o = (0, world.abs_spec(r[1])) if r[0] == 0 else r
+        cmds.append(case)
+        obs.append(o)
+        res.count('construct_%s' % ('skip' if o == (5,) else 'ok' if o[0] == 0 else 'err%s' % (o[1],)))
+        res.note_input(case, nch >= 2)
+    import warnings
+    mod = runner.run_model(cmds)
+    for c, a, b in zip(cmds, obs, mod):
+        res.compare(c, a, b, 'cmd_construct')
 
 
 if __name__ == '__main__':
